@@ -115,9 +115,18 @@ class Folder(object):
             return self.module_const(node.id, mod)
         if isinstance(node, ast.Attribute):
             c = chain(node)
+            if c and env is not None and c[0] in env and isinstance(env[c[0]], dict):
+                # nested dict environments stand for objects: env['self']['cluster']['x'] <- self.cluster.x
+                d = env[c[0]]
+                for i, a in enumerate(c[1:]):
+                    if isinstance(d, dict) and a in d:
+                        d = d[a]
+                    else:
+                        d = Unfoldable
+                        break
+                if d is not Unfoldable:
+                    return d
             if c and len(c) == 2:
-                if env is not None and c[0] in env and isinstance(env[c[0]], dict) and c[1] in env[c[0]]:
-                    return env[c[0]][c[1]]
                 return self.class_const(c[0], c[1], mod)
             raise Unfoldable(src(node))
         if isinstance(node, ast.BinOp) and type(node.op) in _BIN:
